@@ -35,6 +35,7 @@ type Reloc struct {
 	Where  string `json:"where,omitempty"`  // "" in place of the valid section of a second configuration of the same shape, which is read (then the first again) | elsewhere: attached to an unrelated configuration; the configuration it was taken from is read
 	Target string `json:"target,omitempty"` // source of the second configuration: "" the same | other | none
 	Pre    bool   `json:"pre,omitempty"`    // the section is attached to an unrelated configuration first (SetChild without MetaData)
+	Idx    bool   `json:"idx,omitempty"`    // a section that is a list element is addressed as (name of the list, idx) by Child and SetChild instead of by a numeric last segment
 }
 
 const (
@@ -82,6 +83,7 @@ func genReloc(t *rapid.T, c *Case) *Reloc {
 	}
 	r.Target = rapid.SampledFrom([]string{"", "other", "other", "none"}).Draw(t, "reloctarget")
 	r.Pre = rapid.IntRange(0, 3).Draw(t, "relocpre") == 0
+	r.Idx = rapid.Bool().Draw(t, "relocidx")
 	return r
 }
 
@@ -102,7 +104,13 @@ func relocate(c *Case, s *site, donor *ucfg.Config, classes map[string]bool) (re
 		return nil, errDiscard{"relocation: no such section"}
 	}
 	sec := rel[:k]
-	name := strings.Join(sec, ".")
+	name, idx := strings.Join(sec, "."), -1
+	if n, err := strconv.Atoi(sec[k-1]); rl.Idx && k > 1 && err == nil && n >= 0 && strconv.Itoa(n) == sec[k-1] {
+		if p, perr := donor.Child(strings.Join(sec[:k-1], "."), -1, ucfg.PathSep(".")); perr == nil && p.IsArray() && !p.IsDict() {
+			name, idx = strings.Join(sec[:k-1], "."), n // an element of a list: (name of the list, idx)
+			classes["relocation: section addressed by name and idx"] = true
+		}
+	}
 	opts := []ucfg.Option{ucfg.PathSep(".")}
 
 	// the section, as a user gets hold of it
@@ -125,8 +133,8 @@ func relocate(c *Case, s *site, donor *ucfg.Config, classes map[string]bool) (re
 		}
 		classes["relocation: section captured in a *ucfg.Config field"] = true
 	} else {
-		if section, err = donor.Child(name, -1, opts...); err != nil {
-			return nil, fmt.Errorf("relocation: Child(%q) of the loaded configuration: %v", name, err)
+		if section, err = donor.Child(name, idx, opts...); err != nil {
+			return nil, fmt.Errorf("relocation: Child(%q, %d) of the loaded configuration: %v", name, idx, err)
 		}
 		classes["relocation: section obtained with Child"] = true
 	}
@@ -172,11 +180,11 @@ func relocate(c *Case, s *site, donor *ucfg.Config, classes map[string]bool) (re
 	}
 	switch how {
 	case "setchild", "setchild-meta":
-		if err := target.SetChild(name, -1, section, attach...); err != nil {
-			return nil, fmt.Errorf("relocation: SetChild(%q): %v", name, err)
+		if err := target.SetChild(name, idx, section, attach...); err != nil {
+			return nil, fmt.Errorf("relocation: SetChild(%q, %d): %v", name, idx, err)
 		}
 	case "merge":
-		if ok, err := target.Remove(name, -1, opts...); err != nil || !ok {
+		if ok, err := target.Remove(name, idx, opts...); err != nil || !ok {
 			return nil, errDiscard{"relocation: section to replace not found"}
 		}
 		var data interface{} = section
